@@ -200,6 +200,8 @@ def _cl_havoc_outer(st):
     def havoc(ip, env):
         _cl_havoc_common(ip, env, st)
         env.vars.pop("chunk", None)
+        # variables assigned in the loop body keep SOME value after the loop: unconstrained here (nothing after the loop may depend on them)
+        env.vars["n_lines_in_chunk"] = ip.ctx.fresh_int("n_lines_in_chunk_after")
     return havoc
 
 
